@@ -95,6 +95,25 @@ def b(self):
         if not getattr(self, name):
             raise RuntimeError(msg)
 """),
+    ("typing.cast is the identity", """
+from typing import cast
+def a(self, o):
+    x = cast(int, o.value[0])
+    self.v = x + 1
+def b(self, o):
+    x: int = o.value[0]
+    self.v = x + 1
+"""),
+    ("class-level constant", """
+class C:
+    _exts = ('h5', 'hdf5')
+    def a(self, name):
+        if name not in self._exts:
+            raise ValueError(name)
+    def b(self, name):
+        if name not in ('h5', 'hdf5'):
+            raise ValueError(name)
+"""),
     ("comparison orientation", """
 def a(self, n):
     if 3 < n:
